@@ -25,6 +25,31 @@ func runC19(c *mon.Ctx) {
 	})
 }
 
+// c19ZeroChild is a stateless, value-typed reporter (its zero value is the
+// whole reporter, like tally.NullStatsReporter): it logs into a package-level
+// recorder that the case resets.
+type c19ZeroChild struct{}
+
+var c19ZeroRec = mon.NewPlainRec(true)
+
+func (c19ZeroChild) ReportCounter(n string, t map[string]string, v int64) {
+	c19ZeroRec.ReportCounter(n, t, v)
+}
+func (c19ZeroChild) ReportGauge(n string, t map[string]string, v float64) {
+	c19ZeroRec.ReportGauge(n, t, v)
+}
+func (c19ZeroChild) ReportTimer(n string, t map[string]string, v time.Duration) {
+	c19ZeroRec.ReportTimer(n, t, v)
+}
+func (c19ZeroChild) ReportHistogramValueSamples(n string, t map[string]string, b tally.Buckets, lo, hi float64, s int64) {
+	c19ZeroRec.ReportHistogramValueSamples(n, t, b, lo, hi, s)
+}
+func (c19ZeroChild) ReportHistogramDurationSamples(n string, t map[string]string, b tally.Buckets, lo, hi time.Duration, s int64) {
+	c19ZeroRec.ReportHistogramDurationSamples(n, t, b, lo, hi, s)
+}
+func (c19ZeroChild) Capabilities() tally.Capabilities { return c19ZeroRec.Capabilities() }
+func (c19ZeroChild) Flush()                           { c19ZeroRec.Flush() }
+
 func evSig(e mon.Event) string {
 	return fmt.Sprintf("%s name=%q tags=%s I=%d F=%#x lo=%v hi=%v loD=%d hiD=%d spec=%v", e.Kind, e.Name, mon.IdentKey("", e.Tags), e.I, e.F, e.Lo, e.Hi, e.LoD, e.HiD, e.Spec)
 }
@@ -72,9 +97,26 @@ func c19Plain(c *mon.Ctx, r *mon.Rand) {
 		recs[i] = p.Recorder
 		children[i] = p
 	}
+	// a quarter of the cases: one more child that is a zero-valued struct (not a
+	// pointer) - a child like any other
+	zeroChild := r.Chance(1, 4)
+	if zeroChild {
+		c19ZeroRec = mon.NewPlainRec(true)
+		at := r.Intn(n + 1)
+		recs = append(recs[:at], append([]*mon.Recorder{c19ZeroRec.Recorder}, recs[at:]...)...)
+		children = append(children[:at], append([]tally.StatsReporter{c19ZeroChild{}}, children[at:]...)...)
+		n++
+	}
 	wantRep, wantTag := c19Caps(r, recs)
+	nullChild := r.Chance(1, 6) // and/or the library's own NullStatsReporter (no capabilities)
+	if nullChild {
+		children = append(children, tally.NullStatsReporter)
+		wantRep, wantTag = false, false
+	}
 	var ops []string
-	desc := func() interface{} { return map[string]interface{}{"flavour": "plain", "children": n, "ops": ops} }
+	desc := func() interface{} {
+		return map[string]interface{}{"flavour": "plain", "children": n, "zero_valued_struct_child": zeroChild, "null_reporter_child": nullChild, "ops": ops}
+	}
 	c.Eval(1)
 	c.Distinct(mon.Hash64("plain", fmt.Sprint(n, r.U64())))
 	c.Class(fmt.Sprintf("plain-children-%d", n), 1)
